@@ -58,11 +58,15 @@ def check_prune(res, rng, ncases):
         rows = []
         for r in range(R):
             L = rng.choice([0, 1, max(0, m - 1), m, m + 1, m + 2, 2 * m + 1, rng.randrange(0, 14)])
-            style = rng.choice(["ties", "ties", "real", "mixed-sign"])
+            style = rng.choice(["ties", "ties", "real", "mixed-sign", "tiny"])
             if style == "ties":
                 v = [rng.choice([float(EPS32), 0.5, 1.0, 1.0, 2.0, 2.0, 3.0, 7.5]) for _ in range(L)]
             elif style == "real":
                 v = [rng.random() * 4 + 1e-3 for _ in range(L)]
+            elif style == "tiny":
+                # lengths far below FLOAT32_EPS apart (squared distances of data at scale 1e-4): the cut is an order statistic,
+                # not a tolerance band
+                v = [2e-8 * (1 + rng.randrange(0, 40)) for _ in range(L)]
             else:
                 v = [rng.choice([-1.0, -0.0, 0.0, 0.5, 1.0, 2.0]) for _ in range(L)]
             rows.append((style, [np.float32(x) for x in v]))
